@@ -228,6 +228,15 @@ class FaultRelay(Actor):
             if ent is None:
                 return          # answer to nothing we asked (or already answered): resolvers drop it
             cid, orig = ent
+            if self.p.get("drop_probe_answers"):
+                # a path on which no answer to a fragment-size probe ever arrives (whatever the size)
+                try:
+                    pl_, _o = proto.read_name(orig, 12)
+                    if pl_ and pl_[0][:1] in (b"r", b"R"):
+                        self.stats["probe_answers_dropped"] = self.stats.get("probe_answers_dropped", 0) + 1
+                        return
+                except proto.ParseError:
+                    pass
             if self.p["impatient"]:
                 # forward only the first answer for this client query
                 for k in [k for k, v in self.idmap.items() if v[1] is orig]:
